@@ -1,7 +1,11 @@
 //! The lookup battery: every zone built from accepted TZif / POSIX data must
 //! answer `to_offset_info`, `to_ambiguous_timestamp`, `preceding`,
 //! `following` at the extremes and around its own transitions without
-//! panicking. No correctness oracle (the data may be hostile).
+//! panicking. No correctness oracle (the data may be hostile); the only value
+//! check is that an `Ok(Timestamp)` lies inside `Timestamp::MIN..=MAX`.
+//!
+//! All lookups are attempted; each distinct failure class is reported once
+//! (with its first query).
 
 use jiff::civil::DateTime;
 use jiff::tz::TimeZone;
@@ -10,37 +14,46 @@ use vf::{guard, panic_sig};
 
 const NS: i128 = 1_000_000_000;
 const TS_MIN_SEC: i64 = -377705023201;
+const TS_MAX_SEC: i64 = 253402207200;
 
 fn ts(ns: i128) -> Option<Timestamp> {
     Timestamp::from_nanosecond(ns).ok()
 }
 
-/// Returns Some((failure class, detail)) for the first lookup that panics.
+struct Fails(Vec<(String, String)>);
+impl Fails {
+    fn push(&mut self, class: String, detail: String) {
+        if !self.0.iter().any(|x| x.0 == class) {
+            self.0.push((class, detail));
+        }
+    }
+    fn run<T>(&mut self, op: &str, query: impl FnOnce() -> String, cls: &str, f: impl FnOnce() -> T) -> Option<T> {
+        match guard(f) {
+            Ok(v) => Some(v),
+            Err(p) => {
+                self.push(format!("lookup:{}/{}{}", op, panic_sig(&p), cls), format!("query {}: {}", query(), p));
+                None
+            }
+        }
+    }
+}
+
 /// `raw_times`: transition instants read from the raw bytes (may be empty).
-/// `heavy`: also walk 50 items of both iterators from several own transitions.
-pub fn battery(tz: &TimeZone, raw_times: &[i64], heavy: bool) -> Option<(String, String)> {
+/// `heavy`: walk 50 items of both iterators from the first/last four own
+/// transitions (else from all of them - light zones have few).
+pub fn battery(tz: &TimeZone, raw_times: &[i64], heavy: bool) -> Vec<(String, String)> {
     let min = Timestamp::MIN.as_nanosecond();
     let max = Timestamp::MAX.as_nanosecond();
-
-    macro_rules! g {
-        ($op:expr, $q:expr, $cls:expr, $body:expr) => {
-            match guard(|| $body) {
-                Ok(v) => Some(v),
-                Err(p) => {
-                    return Some((format!("lookup:{}/{}{}", $op, panic_sig(&p), $cls), format!("query {}: {}", $q, p)));
-                }
-            }
-        };
-    }
+    let mut f = Fails(vec![]);
 
     // own transitions, as jiff itself reports them, plus the raw ones
     let mut trans: Vec<i128> = vec![];
-    let fwd = g!("following", "Timestamp::MIN take 50", "", tz.following(Timestamp::MIN).take(50).map(|t| t.timestamp().as_nanosecond()).collect::<Vec<_>>())?;
-    let bwd = g!("preceding", "Timestamp::MAX take 50", "", tz.preceding(Timestamp::MAX).take(50).map(|t| t.timestamp().as_nanosecond()).collect::<Vec<_>>())?;
-    g!("preceding", "Timestamp::MIN take 50", "", tz.preceding(Timestamp::MIN).take(50).count())?;
-    g!("following", "Timestamp::MAX take 50", "", tz.following(Timestamp::MAX).take(50).count())?;
-    g!("following", "epoch take 50", "", tz.following(Timestamp::UNIX_EPOCH).take(50).count())?;
-    g!("preceding", "epoch take 50", "", tz.preceding(Timestamp::UNIX_EPOCH).take(50).count())?;
+    let fwd = f.run("following", || "Timestamp::MIN take 50".into(), "", || tz.following(Timestamp::MIN).take(50).map(|t| t.timestamp().as_nanosecond()).collect::<Vec<_>>()).unwrap_or_default();
+    let bwd = f.run("preceding", || "Timestamp::MAX take 50".into(), "", || tz.preceding(Timestamp::MAX).take(50).map(|t| t.timestamp().as_nanosecond()).collect::<Vec<_>>()).unwrap_or_default();
+    f.run("preceding", || "Timestamp::MIN take 50".into(), "", || tz.preceding(Timestamp::MIN).take(50).count());
+    f.run("following", || "Timestamp::MAX take 50".into(), "", || tz.following(Timestamp::MAX).take(50).count());
+    f.run("following", || "epoch take 50".into(), "", || tz.following(Timestamp::UNIX_EPOCH).take(50).count());
+    f.run("preceding", || "epoch take 50".into(), "", || tz.preceding(Timestamp::UNIX_EPOCH).take(50).count());
     trans.extend(&fwd);
     trans.extend(&bwd);
     let n = raw_times.len();
@@ -49,6 +62,7 @@ pub fn battery(tz: &TimeZone, raw_times: &[i64], heavy: bool) -> Option<(String,
             trans.push((t as i128).saturating_mul(NS).clamp(min, max));
         }
     }
+    trans.retain(|x| *x >= min && *x <= max);
     trans.sort_unstable();
     trans.dedup();
 
@@ -60,52 +74,41 @@ pub fn battery(tz: &TimeZone, raw_times: &[i64], heavy: bool) -> Option<(String,
     tss.retain(|x| *x >= min && *x <= max);
     tss.sort_unstable();
     tss.dedup();
-    let first_off = g!("to_offset", "Timestamp::MIN", "", tz.to_offset(Timestamp::MIN).seconds())? as i64;
     for &x in &tss {
         let t = ts(x).unwrap();
-        g!("to_offset_info", format!("{} ns", x), "", {
+        let q = || format!("{} ns", x);
+        f.run("to_offset_info", q, "", || {
             let i = tz.to_offset_info(t);
             (i.offset().seconds(), i.dst().is_dst(), i.abbreviation().len())
-        })?;
-        g!("to_offset", format!("{} ns", x), "", tz.to_offset(t).seconds())?;
-        g!("to_datetime", format!("{} ns", x), "", tz.to_datetime(t))?;
-        g!("to_zoned", format!("{} ns", x), "", {
+        });
+        f.run("to_offset", q, "", || tz.to_offset(t).seconds());
+        f.run("to_datetime", q, "", || tz.to_datetime(t));
+        f.run("to_zoned", q, "", || {
             let z = t.to_zoned(tz.clone());
             (z.datetime(), z.offset())
-        })?;
+        });
     }
 
     // civil datetimes
-    let mut civ: Vec<i128> = vec![
-        vf::conv::dt_min_ns(),
-        vf::conv::dt_min_ns() + 1,
-        vf::conv::dt_min_ns() + NS,
-        vf::conv::dt_min_ns() + 93_599 * NS,
-        vf::conv::dt_min_ns() + 187_198 * NS,
-        0,
-        1_718_452_800 * NS,
-        vf::conv::dt_max_ns() - 187_198 * NS,
-        vf::conv::dt_max_ns() - 93_599 * NS,
-        vf::conv::dt_max_ns() - NS,
-        vf::conv::dt_max_ns(),
-    ];
+    let (dmin, dmax) = (vf::conv::dt_min_ns(), vf::conv::dt_max_ns());
+    let mut civ: Vec<i128> = vec![dmin, dmin + 1, dmin + NS, dmin + 93_599 * NS, dmin + 187_198 * NS, 0, 1_718_452_800 * NS, dmax - 187_198 * NS, dmax - 93_599 * NS, dmax - NS, dmax];
+    let off_at = |f: &mut Fails, x: i128| -> Option<i128> {
+        let t = ts(x.clamp(min, max))?;
+        f.run("to_offset", || format!("{} ns", x), "", || tz.to_offset(t).seconds() as i128)
+    };
     for &t in &trans {
-        let before = ts((t - 1).max(min)).map(|x| tz.to_offset(x).seconds() as i128);
-        let after = ts(t).map(|x| tz.to_offset(x).seconds() as i128);
-        for o in [before, after].into_iter().flatten() {
+        for o in [off_at(&mut f, t - 1), off_at(&mut f, t)].into_iter().flatten() {
             let c = t.div_euclid(NS) * NS + o * NS;
             civ.extend([c - NS, c - 1, c, c + 1, c + NS]);
         }
     }
-    civ.retain(|x| *x >= vf::conv::dt_min_ns() && *x <= vf::conv::dt_max_ns());
-    civ.sort_unstable();
-    civ.dedup();
     // the edges of the representable range in this zone's first / last offset
-    let last_off = g!("to_offset", "Timestamp::MAX", "", tz.to_offset(Timestamp::MAX).seconds())? as i128;
-    let c0 = (TS_MIN_SEC + first_off) as i128 * NS;
-    let c1 = (253_402_207_200 + last_off) * NS + 999_999_999;
+    let first_off = off_at(&mut f, min).unwrap_or(0);
+    let last_off = off_at(&mut f, max).unwrap_or(0);
+    let c0 = (TS_MIN_SEC as i128 + first_off) * NS;
+    let c1 = (TS_MAX_SEC as i128 + last_off) * NS + 999_999_999;
     civ.extend([c0 - NS, c0 - NS / 2, c0 - 1, c0, c0 + 1, c1 - 1, c1, c1 + 1, c1 + NS / 2, c1 + NS]);
-    civ.retain(|x| *x >= vf::conv::dt_min_ns() && *x <= vf::conv::dt_max_ns());
+    civ.retain(|x| *x >= dmin && *x <= dmax);
     civ.sort_unstable();
     civ.dedup();
     for &c in &civ {
@@ -114,7 +117,7 @@ pub fn battery(tz: &TimeZone, raw_times: &[i64], heavy: bool) -> Option<(String,
         // last second before the zone's first wall clock reading
         // (Timestamp::MIN + first offset); (F1) any other civil time earlier
         // than that first reading
-        let first = (TS_MIN_SEC + first_off) as i128;
+        let first = TS_MIN_SEC as i128 + first_off;
         let sec = c.div_euclid(NS);
         let cls = if sec == first - 1 && c.rem_euclid(NS) != 0 {
             "[civil-query-with-fraction-in-the-second-before-Timestamp::MIN+first-offset]"
@@ -123,26 +126,31 @@ pub fn battery(tz: &TimeZone, raw_times: &[i64], heavy: bool) -> Option<(String,
         } else {
             ""
         };
-        let got = g!("to_ambiguous_timestamp", format!("civil {}", dt), cls, {
+        let q = || format!("civil {}", dt);
+        let got = f.run("to_ambiguous_timestamp", q, cls, || {
             let a = tz.to_ambiguous_timestamp(dt);
             let _ = a.offset();
             let _ = a.is_ambiguous();
-            [a.clone().compatible().ok(), a.clone().earlier().ok(), a.clone().later().ok(), a.unambiguous().ok(), tz.to_timestamp(dt).ok()]
-        })?;
-        for t in got.into_iter().flatten() {
+            [a.clone().compatible().ok(), a.clone().earlier().ok(), a.clone().later().ok(), a.unambiguous().ok()]
+        });
+        let got2 = f.run("to_timestamp", q, cls, || tz.to_timestamp(dt).ok());
+        for t in got.into_iter().flatten().chain(got2).flatten() {
             if t < Timestamp::MIN || t > Timestamp::MAX {
-                return Some((
+                f.push(
                     format!("lookup:to_ambiguous_timestamp/ok-timestamp-out-of-range{}", cls),
                     format!("query civil {}: Ok(Timestamp {{ second: {}, nanosecond: {} }}) lies outside Timestamp::MIN..=MAX", dt, t.as_second(), t.subsec_nanosecond()),
-                ));
+                );
             }
         }
-        g!("to_ambiguous_zoned", format!("civil {}", dt), cls, {
-            let _ = tz.to_ambiguous_zoned(dt).compatible();
-        })?;
-        g!("to_timestamp", format!("civil {}", dt), cls, {
-            let _ = tz.to_timestamp(dt);
-        })?;
+        f.run("to_ambiguous_zoned", q, cls, || {
+            let a = tz.to_ambiguous_zoned(dt);
+            let _ = a.clone().compatible();
+            let _ = a.clone().earlier();
+            let _ = a.later();
+        });
+        f.run("to_zoned", q, cls, || {
+            let _ = tz.to_zoned(dt);
+        });
     }
 
     // iterators from own transitions
@@ -150,8 +158,8 @@ pub fn battery(tz: &TimeZone, raw_times: &[i64], heavy: bool) -> Option<(String,
     for &t in &trans {
         let (a, b) = (ts((t + NS).min(max)).unwrap(), ts((t - NS).max(min)).unwrap());
         let k = if pick.contains(&t) { 50 } else { 2 };
-        g!("preceding", format!("{} ns take {}", t + NS, k), "", tz.preceding(a).take(k).map(|x| (x.timestamp(), x.offset(), x.abbreviation().len(), x.dst())).count())?;
-        g!("following", format!("{} ns take {}", t - NS, k), "", tz.following(b).take(k).map(|x| (x.timestamp(), x.offset(), x.abbreviation().len(), x.dst())).count())?;
+        f.run("preceding", || format!("{} ns take {}", t + NS, k), "", || tz.preceding(a).take(k).map(|x| (x.timestamp(), x.offset(), x.abbreviation().len(), x.dst())).count());
+        f.run("following", || format!("{} ns take {}", t - NS, k), "", || tz.following(b).take(k).map(|x| (x.timestamp(), x.offset(), x.abbreviation().len(), x.dst())).count());
     }
-    None
+    f.0
 }
